@@ -8,7 +8,15 @@ long form, before or after the positionals — the parse is the call of that mem
 omitted option the method's own default (`dflt`; `False` for a flag).  `C17_dispatch_exact` splits that namespace
 into `m(*positional, *var_positional, **keyword)`; `C17_reply_rule` is the reply.
 Lexing of decimal numbers, Python literals and dotted paths is not part of the theorem: tokens are structured and a
-value carries what Python's converter makes of it (validated by the differential run). -/
+value carries what Python's converter makes of it (validated by the differential run).
+
+Hypothesis of every theorem that mentions a table: `wellFormed ms` (Model/Control.lean) — member names are distinct
+ASCII identifiers and, for every exposed member, `paramsOk`: parameter names are distinct identifiers, no option is
+called `help` (F1), no option starts with `_` (F2), no parameter is called `command` (F4).  Python itself guarantees
+everything but the three exclusions (and ASCII), so F1, F2, F4 are exactly the ways a subclass adding public members can
+leave the theorems' scope; run at those points the real code fails (known findings, witnessed on every run).  Running
+out of flag letters is NOT such a way: `assignFlags` falls back to the long form and `C16_parser_builds` covers it.
+The check evaluates `wellFormed` on the table extracted from the served classes on every run. -/
 namespace Taskpool.Control
 
 theorem C17_roundtrip (ms : List Member) (hwf : wellFormed ms = true) (m : Member) (hm : m ∈ ms)
